@@ -37,7 +37,7 @@ fn meta() -> Meta {
     Meta {
         id: "C13",
         level: "exploration",
-        rule: "routing: every brace list of <= 3 (quick) / 4 (thorough) distinct names from {A, B, S, U, _Default} in every order (85 lists) plus plain targets {m, m::x, other} x 5 levels x module path {m, other, absent} x specification {off, error, info, trace, off,m=debug} x primary {recording writer, file}; duplication: 7 x 7 Duplicate settings for stderr x stdout x 5 levels at build time, and every ordered pair (old, new) through adapt_duplication_to_stderr / _stdout; distinct_nontrivial = distinct (specification, primary, target, level, module path) probes that address at least one additional writer, plus duplication probes with a non-None setting",
+        rule: "routing: every brace list of <= 4 (quick, 205 lists) / 5 (thorough, 325 lists) distinct names from {A, B, S, U, _Default} in every order plus plain targets {m, m::x, other} x 5 levels x module path {m, other, absent} x specification {off, error, info, trace, off,m=debug} x primary {recording writer, file}; duplication: 7 x 7 Duplicate settings for stderr x stdout x 5 levels at build time, and every ordered pair (old, new) through adapt_duplication_to_stderr / _stdout; distinct_nontrivial = distinct (specification, primary, target, level, module path) probes that address at least one additional writer, plus duplication probes with a non-None setting",
         assumptions: vec![
             "repeated names in one brace list are not enumerated (the statement does not define them)".into(),
             "stdout / stderr are observed by redirecting fd 1 / 2 of the worker process".into(),
@@ -67,30 +67,24 @@ fn specs() -> Vec<RefSpec> {
 static THOROUGH: std::sync::atomic::AtomicBool = std::sync::atomic::AtomicBool::new(false);
 
 fn brace_lists() -> Vec<Vec<usize>> {
+    // every list of distinct names in every order: up to 4 names (quick) / all 5 (thorough)
     let n = NAMES.len();
-    let four = THOROUGH.load(std::sync::atomic::Ordering::Relaxed);
-    let mut v = Vec::new();
-    for a in 0..n {
-        v.push(vec![a]);
-        for b in 0..n {
-            if b == a {
-                continue;
-            }
-            v.push(vec![a, b]);
-            for c in 0..n {
-                if c == a || c == b {
-                    continue;
-                }
-                v.push(vec![a, b, c]);
-                if four {
-                    for d in 0..n {
-                        if d != a && d != b && d != c {
-                            v.push(vec![a, b, c, d]);
-                        }
-                    }
+    let max = if THOROUGH.load(std::sync::atomic::Ordering::Relaxed) { 5 } else { 4 };
+    let mut v: Vec<Vec<usize>> = Vec::new();
+    let mut frontier: Vec<Vec<usize>> = vec![vec![]];
+    for _ in 0..max {
+        let mut next = Vec::new();
+        for l in &frontier {
+            for a in 0..n {
+                if !l.contains(&a) {
+                    let mut l2 = l.clone();
+                    l2.push(a);
+                    next.push(l2);
                 }
             }
         }
+        v.extend(next.iter().cloned());
+        frontier = next;
     }
     v
 }
